@@ -540,31 +540,31 @@ theorem setDefault_spec (W : World) (d : Nat) (hb : BuildInv W d)
           exact setDefault_val_spec W d _ m c k _ hheld
       case challenge alg =>
         simp only [setDefault, FieldSpec.kind] at h
-        cases hd : m.default.value
-        case none =>
-          simp only [hd] at h
-          cases he : envValue W m with
-          | none =>
-            simp only [he] at h
+        cases he : envValue W m with
+        | some s =>
+          simp only [he] at h
+          cases hv : validate W.fe.toEnv (.mk (.challenge alg) req cust) (.str s) with
+          | error e => simp [hv] at h
+          | ok v =>
+            simp only [hv] at h
+            cases h
+            exact setDefault_val_spec W d _ m c k _ (Or.inr ⟨_, hv⟩)
+        | none =>
+          simp only [he] at h
+          cases hd : m.default.value
+          case none =>
+            simp only [hd] at h
             cases h
             exact setDefault_val_spec W d _ m c k _ (Or.inl rfl)
-          | some s =>
-            simp only [he] at h
-            cases hv : validate W.fe.toEnv (.mk (.challenge alg) req cust) (.str s) with
-            | error e => simp [hv] at h
-            | ok v =>
-              simp only [hv] at h
-              cases h
-              exact setDefault_val_spec W d _ m c k _ (Or.inr ⟨_, hv⟩)
-        case str p =>
-          simp only [hd, FieldSpec.kind] at hch
-        case digest sa dg a =>
-          simp only [hd] at h hheld
-          cases h
-          exact setDefault_val_spec W d _ m c k _ hheld
-        all_goals
-          simp only [hd] at h
-          cases h
+          case str p =>
+            simp only [hd, FieldSpec.kind] at hch
+          case digest sa dg a =>
+            simp only [hd] at h hheld
+            cases h
+            exact setDefault_val_spec W d _ m c k _ hheld
+          all_goals
+            simp only [hd] at h
+            cases h
       all_goals
         simp only [setDefault, FieldSpec.kind] at h
         cases he : envValue W m with
